@@ -248,9 +248,9 @@ func literalStream(c *corpus, r *rng, tier string) *inputSet {
 		case '<':
 			cl = '>'
 		}
-		for _, body := range []string{"", "a", "a" + string(cl), string(cl) + "a" + string(cl) + "'", string(byte(d)) + "'" + string(cl) + "'b", "a'b" + string(cl) + "' or 1=1", string(cl) + string(cl) + "'"} {
-			s.add("q-delimiters", "q'"+string(byte(d))+body)
-			s.add("q-delimiters", "1 nQ'"+string(byte(d))+body)
+		for _, body := range []string{"", "a", "a" + bstr(cl), bstr(cl) + "a" + bstr(cl) + "'", bstr(byte(d)) + "'" + bstr(cl) + "'b", "a'b" + bstr(cl) + "' or 1=1", bstr(cl) + bstr(cl) + "'"} {
+			s.add("q-delimiters", "q'"+bstr(byte(d))+body)
+			s.add("q-delimiters", "1 nQ'"+bstr(byte(d))+body)
 		}
 	}
 	// the fixture corpus too (whole inputs)
@@ -451,7 +451,7 @@ func grammarXSSStream(r *rng, tier string) *inputSet {
 		if r.coin(1, 3) {
 			v = nulInsideNames(r, v)
 		}
-		if k := strings.Index(strings.ToUpper(v), "JAVASCRIPT:"); k >= 0 && r.coin(1, 2) {
+		if k := strings.Index(asciiLower(v), "javascript:"); k >= 0 && r.coin(1, 2) {
 			var b strings.Builder
 			for j := 0; j < len("javascript:"); j++ {
 				e := encodeByte(r, v[k+j])
